@@ -120,6 +120,119 @@ def aliases(r):
     return out
 
 
+INF = float("inf")
+
+
+def _iv_norm(iv):
+    iv = sorted((a, b) for a, b in iv if a <= b)
+    out = []
+    for a, b in iv:
+        if out and a <= out[-1][1] + 1:
+            out[-1] = (out[-1][0], max(out[-1][1], b))
+        else:
+            out.append((a, b))
+    return out
+
+
+def _iv_not(iv):
+    out, cur, open_end = [], -INF, True
+    for a, b in _iv_norm(iv):
+        if a > cur:
+            out.append((cur, a - 1))
+        if b == INF:
+            open_end = False
+            break
+        cur = b + 1
+    if open_end:
+        out.append((cur, INF))
+    return _iv_norm(out)
+
+
+def _iv_and(x, y):
+    return _iv_norm([(max(a, c), min(b, d)) for a, b in x for c, d in y])
+
+
+def truth_set(test, var, fold):
+    """The set of integers v (a sorted list of closed intervals) for which `test` holds, `var` being the source text of v; None when
+    the test is not a boolean combination of comparisons of v with constants."""
+    if isinstance(test, ast.UnaryOp) and isinstance(test.op, ast.Not):
+        t = truth_set(test.operand, var, fold)
+        return None if t is None else _iv_not(t)
+    if isinstance(test, ast.BoolOp):
+        parts = [truth_set(v, var, fold) for v in test.values]
+        if any(p is None for p in parts):
+            return None
+        out = parts[0]
+        for p in parts[1:]:
+            out = _iv_and(out, p) if isinstance(test.op, ast.And) else _iv_norm(out + p)
+        return out
+    if isinstance(test, ast.Compare):
+        ops = [test.left] + list(test.comparators)
+        out = [(-INF, INF)]
+        for a, op, b in zip(ops, test.ops, ops[1:]):
+            name = type(op).__name__
+            if U(a) == var:
+                ok, k = fold(b)
+            elif U(b) == var:
+                ok, k = fold(a)
+                name = {"Lt": "Gt", "LtE": "GtE", "Gt": "Lt", "GtE": "LtE"}.get(name, name)
+            else:
+                return None
+            if not ok or isinstance(k, bool) or not isinstance(k, int):
+                return None
+            one = {"Lt": [(-INF, k - 1)], "LtE": [(-INF, k)], "Gt": [(k + 1, INF)], "GtE": [(k, INF)], "Eq": [(k, k)],
+                   "NotEq": [(-INF, k - 1), (k + 1, INF)]}.get(name)
+            if one is None:
+                return None
+            out = _iv_and(out, one)
+        return out
+    return None
+
+
+def raising_guards(r, var):
+    """[(accepted set, If node)] for every `if <test on var>: raise ...` of the function."""
+    out = []
+    for x in ast.walk(r.node):
+        if isinstance(x, ast.If) and any(isinstance(y, ast.Raise) for y in x.body):
+            t = truth_set(x.test, var, r.fold)
+            if t is not None:
+                out.append((_iv_not(t), x))
+    return out
+
+
+def packed_16(r, expr):
+    """value.to_bytes(2, 'big') / int.to_bytes(value, 2, 'big') / struct.pack('>H', value), possibly wrapped in bytearray()/bytes():
+    (value expression, width, byte order) or None."""
+    while isinstance(expr, ast.Call) and isinstance(expr.func, ast.Name) and expr.func.id in ("bytearray", "bytes") and len(expr.args) == 1 \
+            and not expr.keywords:
+        expr = expr.args[0]
+    if not isinstance(expr, ast.Call) or not isinstance(expr.func, ast.Attribute):
+        return None
+    f = expr.func
+    kw = {k.arg: k.value for k in expr.keywords}
+    if f.attr == "to_bytes":
+        args = list(expr.args)
+        if isinstance(f.value, ast.Name) and f.value.id == "int" and args:
+            val, args = args[0], args[1:]
+        else:
+            val = f.value
+        width = args[0] if args else kw.get("length")
+        order = args[1] if len(args) > 1 else kw.get("byteorder")
+        okw, w = r.fold(width) if width is not None else (False, None)
+        oko, o = r.fold(order) if order is not None else (True, "big")
+        if "signed" in kw:
+            oks, sg = r.fold(kw["signed"])
+            if not oks or sg:
+                return None
+        return (val, w if okw else None, o if oko else None)
+    if f.attr == "pack" and isinstance(f.value, ast.Name) and f.value.id == "struct" and len(expr.args) == 2:
+        okf, fmt = r.fold(expr.args[0])
+        if okf and isinstance(fmt, str) and len(fmt) == 2 and fmt[1] in "Hh":
+            return (expr.args[1], 2 if fmt[1] == "H" else None, {">": "big", "!": "big", "<": "little"}.get(fmt[0]))
+    return None
+
+
+
 def split_16(r, probs, name):
     """Checks the two byte stores of a 16-bit big-endian split. Returns the radix or None."""
     st = stores(r)
@@ -142,6 +255,24 @@ def split_16(r, probs, name):
                 isinstance(x, ast.Call) and isinstance(x.func, ast.Name) and x.func.id == "encode16Int" for x in ast.walk(r.node)):
             return 256
     if 0 not in st or 1 not in st:
+        # the split left to the library: to_bytes(2, 'big') / struct.pack('>H', v) - byte order and width are arguments
+        for x in ast.walk(r.node):
+            pk = packed_16(r, x) if isinstance(x, ast.Call) else None
+            if pk is not None:
+                val, w, o = pk
+                if o != "big":
+                    probs.append(Problem("L1", name, "byte-order", "the 16-bit value is packed in %r order, must be big-endian" % (o,), x))
+                if w != 2:
+                    probs.append(Problem("L1", name, "radix", "the 16-bit value is packed into %s byte(s), must be 2" % (w,), x))
+                r.packed = (val, x)
+                return 256
+        if (0 in st) != (1 in st) and any(isinstance(x, ast.Call) and isinstance(x.func, ast.Name) and x.func.id == "bytearray" and len(x.args) == 1
+                                          and r.fold(x.args[0]) == (True, 2) for x in ast.walk(r.node)):
+            # a zero-filled 2-byte buffer of which only one byte is ever written
+            missing = 1 if 0 in st else 0
+            probs.append(Problem("L1", name, "byte-order", "byte %d of the 16-bit field is never written (it stays 0): the %s part of the value is lost" % (
+                missing, "low" if missing else "high"), list(st.values())[0][2]))
+            return 256
         raise AnalysisError("%s: the two byte stores of the 16-bit prefix are not recognisable" % name)
 
     def role(expr):
@@ -179,6 +310,45 @@ def join_16(r, probs, name, expr):
                 order = v
         src = expr.args[0]
         width = None
+        guarded = False
+        if isinstance(src, ast.Name):
+            # the two bytes named first: pair = enc[0:2]  (a length test that raises makes the slice as strict as indexing)
+            defs = [x.value for x in ast.walk(r.node) if isinstance(x, ast.Assign) and len(x.targets) == 1 and isinstance(x.targets[0], ast.Name)
+                    and x.targets[0].id == src.id]
+            if len(defs) == 1:
+                for acc, g in raising_guards(r, "len(%s)" % src.id):
+                    if acc and acc[0][0] == 2:
+                        guarded = True
+                src = defs[0]
+        if isinstance(src, (ast.Tuple, ast.List)) and len(src.elts) == 2:
+            # int.from_bytes((enc[0], enc[1]), 'big'): the bytes are indexed (a short field faults), the order is the argument
+            names_ = {}
+            for x in ast.walk(r.node):
+                if isinstance(x, ast.Assign) and len(x.targets) == 1:
+                    t_, v_ = x.targets[0], x.value
+                    if isinstance(t_, ast.Tuple) and isinstance(v_, ast.Tuple) and len(t_.elts) == len(v_.elts):
+                        for a_, b_ in zip(t_.elts, v_.elts):
+                            if isinstance(a_, ast.Name):
+                                names_[a_.id] = b_
+                    elif isinstance(t_, ast.Name):
+                        names_[t_.id] = v_
+            idx = []
+            for e_ in src.elts:
+                e_ = names_.get(e_.id, e_) if isinstance(e_, ast.Name) else e_
+                if isinstance(e_, ast.Subscript) and not isinstance(e_.slice, ast.Slice):
+                    oki, i_ = r.fold(e_.slice)
+                    idx.append(i_ if oki else None)
+                else:
+                    idx.append(None)
+            if None in idx:
+                raise AnalysisError("%s: int.from_bytes(%s) not understood" % (name, U(src)))
+            if order not in ("big", "little"):
+                raise AnalysisError("%s: int.from_bytes byte order not understood" % name)
+            first_is_high = order == "big"
+            hi_i, lo_i = (idx[0], idx[1]) if first_is_high else (idx[1], idx[0])
+            if hi_i != 0 or lo_i != 1:
+                probs.append(Problem("L1", name, "byte-order", "the byte at index 0 must be the high part (found index %s as the high byte, index %s as the low byte)" % (hi_i, lo_i), expr))
+            return True
         if isinstance(src, ast.Subscript) and isinstance(src.slice, ast.Slice):
             lo = r.fold(src.slice.lower) if src.slice.lower is not None else (True, 0)
             hi = r.fold(src.slice.upper) if src.slice.upper is not None else (False, None)
@@ -190,7 +360,8 @@ def join_16(r, probs, name, expr):
             probs.append(Problem("L1", name, "byte-order", "bytes are joined in %r order, must be big-endian" % (order,), expr))
         if width != (0, 2):
             probs.append(Problem("L1", name, "radix", "the 16-bit value is taken from bytes [%s:%s], must be [0:2]" % width, expr))
-        r.lenient_join = expr
+        if not guarded:
+            r.lenient_join = expr
         return True
     parts = []
     # locals that merely name a byte of the argument: hi, lo = enc[0], enc[1] / hi = enc[0]
@@ -231,6 +402,13 @@ def join_16(r, probs, name, expr):
         elif isinstance(p, ast.Subscript):
             oki, i = r.fold(p.slice)
             lo = (i if oki else None, p)
+    if hi is None and lo is not None and len(parts) == 2:
+        # byte OP constant where the weight belongs: the join it is meant to be, with the wrong operator
+        for p in parts:
+            if isinstance(p, ast.BinOp) and isinstance(deref(p.left), ast.Subscript) and r.fold(p.right)[0]:
+                probs.append(Problem("L1", name, "radix", "the high byte is combined with %s by `%s`; it must be multiplied by 256 (shifted left by 8)" % (
+                    U(p.right), U(p)), p))
+                return True
     if hi is None or lo is None or len(parts) != 2:
         raise AnalysisError("%s: 16-bit join %s not understood" % (name, U(expr)))
     if hi[0] != 0 or lo[0] != 1:
@@ -259,7 +437,25 @@ def check_primitives(prog):
     # (a bytearray built from the two parts range-checks them just as item assignment does)
     ctor2 = any(isinstance(x.args[0], (ast.Tuple, ast.List)) and len(x.args[0].elts) == 2 or
                 (isinstance(x.args[0], ast.Call) and isinstance(x.args[0].func, ast.Name) and x.args[0].func.id == "divmod") for x in sizes)
-    if not any(ok and v == 2 for ok, v in oks) and not ctor2:
+    if getattr(r, "packed", None) is not None:
+        # to_bytes / struct.pack refuse an out-of-range value with OverflowError / struct.error, neither a ValueError: an explicit
+        # guard must reject exactly what does not fit, with a ValueError
+        val = r.packed[0]
+        gs = [(acc, g) for acc, g in raising_guards(r, U(val))]
+        acc = [(-INF, INF)]
+        for a_, g in gs:
+            acc = _iv_and(acc, a_)
+        if acc != [(0, 65535)]:
+            probs.append(Problem("L1", "encode16Int", "width", "the value is handed to %s, which does not raise a ValueError for values outside 0..65535, "
+                                 "and the guards in front of it accept %s" % (U(r.packed[1])[:40], acc), r.packed[1]))
+        for a_, g in gs:
+            rs = [y for y in g.body if isinstance(y, ast.Raise)]
+            exc = rs[0].exc.func if isinstance(rs[0].exc, ast.Call) else rs[0].exc
+            res = prog.resolve(mod, U(exc)) if isinstance(exc, ast.Name) else None
+            cq = res[1].qual if res and res[0] == "class" else U(exc)
+            if not (prog.exc_is(cq, "ValueError") or cq == "ValueError"):
+                probs.append(Problem("S7", "encode16Int", "range-exception", "an out-of-range 16-bit value raises %s, which is not a ValueError" % U(exc), rs[0]))
+    elif not any(ok and v == 2 for ok, v in oks) and not ctor2:
         probs.append(Problem("L1", "encode16Int", "width", "the 16-bit integer is not stored into a 2-byte bytearray (item assignment is the range check)", r.node))
     r = Roles(prog, mod, mod.funcs["decode16Int"])
     rets = [x for x in ast.walk(r.node) if isinstance(x, ast.Return)]
@@ -292,7 +488,7 @@ def check_primitives(prog):
                 body_first = x.targets[0].id
         two = any(isinstance(x, ast.Call) and isinstance(x.func, ast.Name) and (
             (x.func.id == "bytearray" and len(x.args) == 1 and isinstance(x.args[0], (ast.Tuple, ast.List)) and len(x.args[0].elts) == 2)
-            or x.func.id == "encode16Int") for x in ast.walk(r.node))
+            or x.func.id == "encode16Int") for x in ast.walk(r.node)) or getattr(r, "packed", None) is not None
         if body_first is not None and two:
             W = 2
             appended = []
@@ -351,19 +547,12 @@ def check_primitives(prog):
                 lname = U(x.targets[0])
     if not measured_ok:
         raise AnalysisError("encodeString: how the prefix value is measured is not recognisable")
-    # over-long guard
+    # over-long guard: the raising tests on the measured length, as the set of lengths they let through
     guard = None
-    for x in ast.walk(r.node):
-        if isinstance(x, ast.If) and any(isinstance(y, ast.Raise) for y in x.body) and isinstance(x.test, ast.Compare) and len(x.test.ops) == 1:
-            ok, c = r.fold(x.test.comparators[0])
-            if ok and U(x.test.left) == lname:
-                guard = (type(x.test.ops[0]).__name__, c, x)
-            ok, c = r.fold(x.test.left)
-            if ok and U(x.test.comparators[0]) == lname:
-                # the limit on the left: 65535 < size
-                flip = {"Lt": "Gt", "LtE": "GtE", "Gt": "Lt", "GtE": "LtE"}.get(type(x.test.ops[0]).__name__)
-                if flip:
-                    guard = (flip, c, x)
+    for acc, g in raising_guards(r, lname):
+        top = acc[-1][1] if acc else None
+        if top is not None and top != INF:
+            guard = ("Gt", top, g)
     if guard is None:
         probs.append(Problem("S7", "encodeString", "overlong-guard", "no comparison of the encoded length with 65535 leads to a raise", r.node))
     else:
@@ -598,6 +787,39 @@ def check_primitives(prog):
                 steps.append((1 << k) if isinstance(fold[0].value.left.op, ast.LShift) else k)
                 horner = ("<count:%s>" % (idx[0].slice.id if idx else idx1[0].slice.left.id), fold[0])
                 horner_post = bool(idx1) and not idx
+    enum_form = False
+    if not steps:
+        # the weight computed from the digit's position: for pos, digit in enumerate(enc): value |= (digit & 0x7F) << (7 * pos)
+        for lp in ast.walk(r.node):
+            if isinstance(lp, ast.For) and isinstance(lp.iter, ast.Call) and isinstance(lp.iter.func, ast.Name) and lp.iter.func.id == "enumerate" \
+                    and len(lp.iter.args) == 1 and isinstance(lp.target, ast.Tuple) and len(lp.target.elts) == 2 and isinstance(lp.target.elts[0], ast.Name):
+                posn = lp.target.elts[0].id
+                for x in ast.walk(lp):
+                    if isinstance(x, ast.BinOp) and isinstance(x.op, ast.LShift) and isinstance(x.right, ast.BinOp) and isinstance(x.right.op, ast.Mult):
+                        a_, b_ = x.right.left, x.right.right
+                        if isinstance(b_, ast.Name) and b_.id == posn:
+                            a_, b_ = b_, a_
+                        if isinstance(a_, ast.Name) and a_.id == posn:
+                            ok, k = r.fold(b_)
+                            if ok and isinstance(k, int) and 0 < k < 32:
+                                steps.append(1 << k)
+                                enum_form = True
+    if masks and not steps:
+        # the shape is the running-weight one, but the weight is not advanced the way it must be: a finding, not an unknown idiom
+        accs = [x for x in ast.walk(r.node) if isinstance(x, ast.AugAssign) and isinstance(x.op, (ast.Add, ast.BitOr))
+                and any(isinstance(y, ast.BinOp) and isinstance(y.op, ast.BitAnd) for y in ast.walk(x.value))]
+        wnames = {y.id for x in accs for y in ast.walk(x.value) if isinstance(y, ast.Name)} - set(r.params)
+        loopvars = {t.id for lp in ast.walk(r.node) if isinstance(lp, ast.For) for t in ast.walk(lp.target) if isinstance(t, ast.Name)}
+        wnames -= loopvars
+        if accs and len(wnames) == 1:
+            w = next(iter(wnames))
+            upd = [x for x in ast.walk(r.node) if isinstance(x, ast.AugAssign) and U(x.target) == w]
+            if not upd:
+                probs.append(Problem("L1", "decodeLength", "accumulate", "the weight `%s` is never advanced: every digit is added with the weight of the first" % w, accs[0]))
+            else:
+                probs.append(Problem("L1", "decodeLength", "accumulate", "the weight `%s` is advanced by `%s`; it must be multiplied by 128 after each digit" % (
+                    w, U(upd[0])), upd[0]))
+            steps.append(128)
     if len(masks) < 1 or not steps:
         raise AnalysisError("decodeLength: masks / multiplier step not recognisable")
     value_mask = min(masks)
@@ -632,9 +854,15 @@ def check_primitives(prog):
             if not okb:
                 probs.append(Problem("L1", "decodeLength", "stop-test", "decoding stops on `%s`; it must stop exactly when the continuation bit is clear" % U(t), x))
     # additive accumulation with a multiplier that starts at 1, value at 0
-    acc = [x for x in ast.walk(r.node) if isinstance(x, ast.AugAssign) and isinstance(x.op, ast.Add)
+    acc = [x for x in ast.walk(r.node) if isinstance(x, ast.AugAssign) and (isinstance(x.op, ast.Add) or (enum_form and isinstance(x.op, ast.BitOr)))
            and any(isinstance(y, ast.BinOp) and isinstance(y.op, ast.BitAnd) for y in ast.walk(x.value))]
     plain = [x for x in ast.walk(r.node) if isinstance(x, ast.For)]
+    # the masked digit is weighted by multiplication (or a left shift), nothing else
+    for x in acc:
+        v = x.value
+        if isinstance(v, ast.BinOp) and not isinstance(v.op, ast.BitAnd) and any(isinstance(y, ast.BinOp) and isinstance(y.op, ast.BitAnd) for y in ast.walk(v)) \
+                and not isinstance(v.op, (ast.Mult, ast.LShift)):
+            probs.append(Problem("L1", "decodeLength", "accumulate", "the digit is combined with its weight by `%s`; it must be multiplied by it" % U(v), x))
     # a digit is accumulated with the weight of its own position: the weight advances after the accumulation, in the same iteration
     if plain and acc:
         lb = list(plain[0].body)
@@ -692,7 +920,7 @@ def check_primitives(prog):
             inits = {k: v for k, v in inits.items() if k != cn0}
         if [v for v in inits.values() if isinstance(v, int)] != [0]:
             probs.append(Problem("L1", "decodeLength", "init", "the folded value must start at 0 (found %s)" % inits, r.node))
-    elif sorted(inits.values()) != ([0, 0] if shift_form else [0, 1]):
+    elif sorted(inits.values()) != ([0] if enum_form else [0, 0] if shift_form else [0, 1]):
         probs.append(Problem("L1", "decodeLength", "init", "accumulator and multiplier must start at 0 and 1 (found %s)" % inits, r.node))
     # guards that reject: a bound on the multiplier must admit every legal 4-byte length
     loop = plain[0] if plain else None
@@ -716,8 +944,23 @@ def check_primitives(prog):
                     probs.append(Problem("L1", "decodeLength", "extra-raise", "decodeLength raises under `%s`: part of the domain 0..268435455 may be rejected" % U(x.test), x))
     for fname in ("decode16Int", "decodeString", "encode16Int"):
         fn = mod.funcs[fname]
+        rr = Roles(prog, mod, fn)
+        allowed = set()
+        if fname == "encode16Int" and fn.params:
+            # the explicit form of the range check: only values outside 0..65535 are refused
+            for acc, g in raising_guards(rr, fn.params[0]):
+                if _iv_and(acc, [(0, 65535)]) == [(0, 65535)]:
+                    allowed |= {id(y) for y in g.body if isinstance(y, ast.Raise)}
+        if fname == "decode16Int":
+            # a field shorter than two bytes is refused (what indexing does by itself)
+            for x in ast.walk(fn.node):
+                if isinstance(x, ast.If):
+                    for nm in {y.id for y in ast.walk(x.test) if isinstance(y, ast.Name)}:
+                        t = truth_set(x.test, "len(%s)" % nm, rr.fold)
+                        if t is not None and _iv_and(t, [(2, INF)]) == []:
+                            allowed |= {id(y) for y in x.body if isinstance(y, ast.Raise)}
         for x in ast.walk(fn.node):
-            if isinstance(x, ast.Raise):
+            if isinstance(x, ast.Raise) and id(x) not in allowed:
                 probs.append(Problem("L1", fname, "extra-raise", "%s raises: part of its domain is rejected" % fname, x))
     if el["modulus"] != dl["step"] or el["cont"] != dl["test"]:
         probs.append(Problem("L1", "encodeLength/decodeLength", "pair", "encoder radix %s / continuation %s disagree with decoder step %s / test bit %s" % (
